@@ -167,12 +167,32 @@ func VH17b_recv() {
 	vt.Install()
 	side := vt.Listen(sock, "a")
 	p1 := side.Peer("p1")
+	// which receive call hands the data to the application: RecvMsg or Recv (a copy of the body), on the
+	// socket or on an opened context
+	type endpoint interface {
+		Send([]byte) error
+		SendMsg(*mangos.Message) error
+		Recv() ([]byte, error)
+		RecvMsg() (*mangos.Message, error)
+		SetOption(string, interface{}) error
+	}
+	var ep endpoint = sock
+	api := verif.Choice("api", 4)
+	lab += []string{"/RecvMsg", "/Recv", "/ctx.RecvMsg", "/ctx.Recv"}[api]
+	if api >= 2 {
+		c, cerr := sock.OpenContext()
+		if cerr != nil {
+			verif.Assume(false) // pattern without contexts
+		}
+		ep = c
+	}
+	bytesAPI := api == 1 || api == 3
 	if proto == "sub" {
-		sock.SetOption(mangos.OptionSubscribe, []byte{})
+		ep.SetOption(mangos.OptionSubscribe, []byte{})
 	}
 	if proto == "req" || proto == "surveyor" {
 		// need an outstanding request/survey whose id the reply must carry
-		verif.Assert(sock.Send([]byte{'q'}) == nil, lab+"/request")
+		verif.Assert(ep.Send([]byte{'q'}) == nil, lab+"/request")
 		verif.Quiesce()
 	}
 	reply := func(tag, payload byte) []byte {
@@ -193,19 +213,31 @@ func VH17b_recv() {
 	p1.Deliver(w)
 	var m *mangos.Message
 	var err error
-	g := verif.Go("recv", func() { m, err = sock.RecvMsg() })
+	g := verif.Go("recv", func() {
+		if bytesAPI {
+			var b []byte
+			b, err = ep.Recv()
+			if err == nil {
+				m = &mangos.Message{Body: b} // the application's own wrapper around the bytes it was handed
+			}
+		} else {
+			m, err = ep.RecvMsg()
+		}
+	})
 	verif.Quiesce()
 	if !g.Done() || err != nil {
 		verif.Assume(false) // pattern without a receive path
 	}
-	verif.Owned(m)
+	if !bytesAPI {
+		verif.Owned(m)
+	}
 	hcopy := append([]byte{}, m.Header...)
 	bcopy := append([]byte{}, m.Body...)
 	verif.Assert(len(m.Body) >= 2 && m.Body[len(m.Body)-2] == 'A' && m.Body[len(m.Body)-1] == pay, lab+"/received-body")
 	// more traffic through the same pool classes
 	for i := 0; i < verif.Param("more", 2); i++ {
 		if proto == "req" {
-			sock.Send([]byte{'q'})
+			ep.Send([]byte{'q'})
 			verif.Quiesce()
 		}
 		if w2 := reply('B', verif.Byte("later")); w2 != nil {
@@ -213,7 +245,7 @@ func VH17b_recv() {
 		}
 		var m2 *mangos.Message
 		var e2 error
-		g2 := verif.Go("recv2", func() { m2, e2 = sock.RecvMsg() })
+		g2 := verif.Go("recv2", func() { m2, e2 = ep.RecvMsg() })
 		verif.Quiesce()
 		if g2.Done() && e2 == nil {
 			m2.Free()
@@ -222,7 +254,7 @@ func VH17b_recv() {
 		out.Body = append(out.Body, 'o', 'k')
 		hdrFor(proto, out)
 		gs := verif.Go("send", func() {
-			if sock.SendMsg(out) != nil {
+			if ep.SendMsg(out) != nil {
 				out.Free()
 			}
 		})
@@ -231,7 +263,9 @@ func VH17b_recv() {
 	}
 	verif.Assert(verif.BytesEq(m.Header, hcopy) && verif.BytesEq(m.Body, bcopy), lab+"/application-owned-message-changed")
 	verif.Reach("owned-checked")
-	m.Free()
+	if !bytesAPI {
+		m.Free()
+	}
 	sock.Close()
 	verif.Quiesce()
 }
